@@ -9,6 +9,8 @@ git -C "$REPO" status --short | grep -q . && { echo "repo working tree is not cl
 ok=0; bad=0
 for d in seeded/*/; do
   id=$(basename "$d")
+  # SEEDS="C01 C19-h": only the seeds of these properties / with these ids
+  if [ -n "${SEEDS:-}" ]; then hit=0; for w in $SEEDS; do case "$id" in $w|$w-*) hit=1;; esac; done; [ $hit -eq 1 ] || continue; fi
   prop=$(python3 -c "import json;print(json.load(open('$d/meta.json'))['breaks_property'])")
   if ! git -C "$REPO" apply "$PWD/$d/patch.diff" 2>/dev/null; then echo "$id: patch does not apply any more"; bad=$((bad+1)); continue; fi
   out=$(./check "$prop" quick 2>&1); rc=$?
